@@ -2,3 +2,4 @@ pub mod c20;
 pub mod c15;
 pub mod c14;
 pub mod c12;
+pub mod c01;
